@@ -477,7 +477,8 @@ def run_C16(R):
     cases = [[['B0'], ['G0']], [['G0'], ['B0']], [['G0'], ['G1']], [['B0'], ['B1']],
              [['G0', 'B0'], ['G1']], [['B0', 'G0']], [['G0', 'B0']], [['G0']], [['B1']],
              [['B0'], ['G0'], ['G1']], [['G0'], ['B1'], ['G1']], [['G0'], ['G1'], ['B0']], [[], ['B0']],
-             [['B0'], []]]
+             [['B0'], []], [['B0', 'B1']], [['B1', 'G0', 'B0']], [['G0', 'B0', 'B1', 'G1']],
+             [['B0', 'B0'], ['B1']]]
     if not R.quick:
         for k in (2, 3):
             for combo in itertools.product(units, repeat=k):
